@@ -474,11 +474,37 @@ func structInitStores(alloc ssa.Value) map[string][]*ssa.Store {
 		}
 	}
 	collect(alloc)
-	if alloc.Referrers() != nil {
-		for _, r := range *alloc.Referrers() {
-			if s, ok := r.(*ssa.Store); ok && s.Addr == alloc {
-				if src, ok := loadAddr(s.Val); ok {
-					collect(src)
+	for _, src := range copiedFrom(alloc) {
+		collect(src)
+	}
+	return out
+}
+
+// copiedFrom: the struct storage whose content is copied into alloc as a whole: a literal
+// assigned to the variable, or the local that a first-party constructor function fills and returns
+// by value (gw := newGateway()).
+func copiedFrom(alloc ssa.Value) []ssa.Value {
+	var out []ssa.Value
+	if alloc.Referrers() == nil {
+		return nil
+	}
+	for _, r := range *alloc.Referrers() {
+		s, ok := r.(*ssa.Store)
+		if !ok || s.Addr != alloc {
+			continue
+		}
+		if src, ok := loadAddr(s.Val); ok {
+			out = append(out, src)
+			continue
+		}
+		if call, ok := strip(s.Val).(*ssa.Call); ok {
+			if h := call.Call.StaticCallee(); h != nil && IsFirstParty(h) && h.Blocks != nil {
+				for _, ret := range returnsOf(h) {
+					if len(ret.Results) == 1 {
+						if src, ok := loadAddr(strip(unspill(ret.Results[0]))); ok {
+							out = append(out, src)
+						}
+					}
 				}
 			}
 		}
@@ -521,6 +547,10 @@ func wiringRule(c *Ctx, rule string) {
 		c.Missing("no bound gw.HandleGatewayProtocol in main")
 	}
 	init := structInitStores(gw)
+	gwSet := map[ssa.Value]bool{gw: true}
+	for _, src := range copiedFrom(gw) {
+		gwSet[src] = true
+	}
 	isStoreTo := func(field string) func(ssa.Instruction) bool {
 		return func(in ssa.Instruction) bool {
 			s, ok := in.(*ssa.Store)
@@ -528,7 +558,7 @@ func wiringRule(c *Ctx, rule string) {
 				return false
 			}
 			b, f, ok := fieldOfAddr(s.Addr)
-			return ok && b == gw && f.Name() == field
+			return ok && gwSet[b] && f.Name() == field
 		}
 	}
 	for i, r := range regs {
@@ -546,7 +576,7 @@ func wiringRule(c *Ctx, rule string) {
 		if !wantBranch {
 			g = GFalse(func(v ssa.Value) bool { p, ok := confFieldPath(v); return ok && p == "Caps.TokenAuth" })
 		}
-		ok, _ := mustPass(mainFn, s, g)
+		ok, _ := mustPass(s.Parent(), s, g) // the store may sit in a constructor helper of main
 		return ok
 	}
 	nHost := 0
